@@ -100,6 +100,7 @@ type outcome struct {
 	Closed    bool     // the server closed the connection / sent ERR
 	Infra     bool     // could not even reach the server (TCP / HEL-ACK): infrastructure
 	Skip      bool     // attempt does not apply to this configuration
+	NotSent   bool     // the client library refused the settings itself, nothing reached the server
 	Endpoints []string // sorted "fragment/mode" of the endpoints in the answer
 	Detail    string
 	Dur       time.Duration
@@ -208,7 +209,7 @@ func tryUASC(url string, a attempt, forced bool, timeout time.Duration) (o outco
 	errch := make(chan error, 16)
 	sc, err := uasc.NewSecureChannel(url, conn, cfg, errch)
 	if err != nil {
-		o.Detail = "client refused the settings: " + err.Error()
+		o.Detail, o.NotSent = "client refused the settings: "+err.Error(), true
 		return
 	}
 	if forced {
@@ -257,6 +258,7 @@ func tryOpcua(url string, a attempt, timeout time.Duration) (o outcome) {
 	}
 	if err := c.Dial(ctx); err != nil {
 		o.Detail = "dial: " + err.Error()
+		o.NotSent = strings.Contains(err.Error(), "invalid channel config")
 		// a TCP-level failure is infrastructure; everything after HEL/ACK is the server's answer
 		if _, ok := err.(*net.OpError); ok {
 			o.Infra = true
@@ -592,10 +594,12 @@ func checkConfig(cfg []int, attempts []attempt) (fails []failure, known int, inf
 			classes = append(classes, "outcome:channel-usable")
 		case o.Opened:
 			classes = append(classes, "outcome:opened-but-request-unanswered")
+		case o.NotSent:
+			classes = append(classes, "outcome:client-library-refused-the-settings-itself")
 		case o.Closed:
 			classes = append(classes, "outcome:refused-connection-closed")
 		default:
-			classes = append(classes, "outcome:refused-other")
+			classes = append(classes, "outcome:refused-no-answer")
 		}
 		b, _ := json.Marshal(mk(a))
 		rec.Case(nontrivial, ev.Hash(b), classes...)
